@@ -37,6 +37,10 @@ elif len(sys.argv) > 4 and sys.argv[4] == "crosscut":
     steer = """
 For this round: at least one of your changes must be made in SHARED INFRASTRUCTURE that many parts of the simulator use - src/nuspacesim/utils/ (decorators, interpolation, grids, unit helpers, the cli option parsing), src/nuspacesim/constants.py, src/nuspacesim/types.py or results_table.py, config.py validators / serializers, compute.py wiring, the data-file loaders - so that it breaks the stated property through the way the anchored code uses that infrastructure, for a specific input or configuration only, while every other documented use of the shared code keeps working. And at least one must be a change that is correct for the DEFAULT configuration (`create-config` output, 525 km detector, optical channel, diffuse mode, mono-energetic 10^8 GeV... whatever the defaults are) and for the configurations the test-suite uses, but wrong for another LEGAL configuration value: a different detector altitude, another month, a non-default table version, a target-mode source, a radio band, a cloud model, a power-law or file-based spectrum, a different number of antennas, thresholds, or output options.
 """
+elif len(sys.argv) > 4 and sys.argv[4] == "aftermath":
+    steer = """
+For this round: at least one of your changes must show only in the AFTERMATH OF A FAILED, REJECTED OR INTERRUPTED CALL - an exception raised part-way (an invalid input that is correctly refused, a failing callback, a KeyboardInterrupt, a missing file) leaves an object, a module-level structure, a configuration, a numpy / dask / astropy setting or a file in a state that makes the NEXT, perfectly valid call or run give a wrong answer - while any sequence of successful calls stays bit-identical to the original. And at least one must be an ALIASING change: something that used to be a fresh array / dict / object becomes a view of, or the very same object as, an input, an internal table, a default, a previous result or another stage's column (np.asarray instead of np.array, a returned slice, `out=`, an in-place operator, a shared default, a reference kept instead of a copy), so that the damage appears only when the caller or a LATER stage re-uses, mutates or compares that other object - the first result returned is still right.
+"""
 elif len(sys.argv) > 4 and sys.argv[4] == "interaction":
     steer = """
 For this round: at least one of your changes must live in an INTERACTION rather than in a single formula - between two calls on one object, between two objects or two stages of the pipeline, between the library and its environment (files, the process, configuration objects that outlive a call, the dtype / memory layout / length of the arrays passed in), or between two edits that are each harmless alone. And at least one must sit at a code site that is NOT the most obvious function for this property: a helper, decorator or utility it depends on, the wiring in compute.py or the command line, a constructor, or a data-handling routine.
